@@ -145,12 +145,14 @@ def build(flavour, L=None):
             jobs.append(([CXX, '-std=c++17', '-Wall', '-Wno-unused-function'] + fl + includes + ['-I' + SIM, '-c', s, '-o', o], o))
     if jobs: compile_many(jobs)
     exe = os.path.join(BUILD, 'bin', 'sim-%s-%s-%s' % (flavour, lib_key, sim_key))
+    so = os.path.join(libdir, 'libcbor_sim.so')
+    if shared and not os.path.exists(so):
+        r = sh([CC, '-shared', '-o', so + '.tmp'] + objs + ['-Wl,-z,now', '-Wl,-z,relro', '-lm'])
+        if r.returncode != 0: log(r.stderr); raise SystemExit(harness_fault('link of shared library failed'))
+        os.rename(so + '.tmp', so)
     if not os.path.exists(exe):
         os.makedirs(os.path.dirname(exe), exist_ok=True)
         if shared:
-            so = os.path.join(libdir, 'libcbor_sim.so')
-            r = sh([CC, '-shared', '-o', so] + objs + ['-Wl,-z,now', '-Wl,-z,relro', '-lm'])
-            if r.returncode != 0: log(r.stderr); raise SystemExit(harness_fault('link of shared library failed'))
             link = [CXX, '-o', exe + '.tmp'] + sobjs + [so, '-Wl,-rpath,' + libdir, '-lpthread', '-ldl', '-lm', '-rdynamic'] + ldflags
         else:
             link = [CXX, '-o', exe + '.tmp'] + sobjs + objs + ['-lpthread', '-ldl', '-lm', '-rdynamic'] + ldflags
@@ -178,7 +180,7 @@ def prune_build():
         groups.setdefault(kind, []).append(p)
     for kind, paths in groups.items():
         paths.sort(key=lambda x: os.path.getmtime(x), reverse=True)
-        keep = 8 if kind.startswith('bin') or kind.startswith('cfg') else 3
+        keep = 12 if kind.startswith('bin') or kind.startswith('cfg') or kind.startswith('lib') else 4
         for p in paths[keep:]:
             if os.path.isdir(p): shutil.rmtree(p, ignore_errors=True)
             else:
